@@ -260,9 +260,12 @@ def run_property(pid, tier, seed):
                 log(f'INCONCLUSIVE property={pid} condition={inc}')
             harness_errors += ex.get('harness_errors', [])
             violations += ex.get('violations', [])
+            seen_kf = {}
             for kid, text in ex.get('known_lines', []):
-                f = [x for x in findings if x['id'] == kid]
-                known_lines.append(f'KNOWN-FINDING: property={pid} {kid}: {f[0]["what"] if f else ""} [{text[:200]}]')
+                seen_kf.setdefault(kid, []).append(text)
+            for kid, texts in seen_kf.items():
+                f = [x for x in load_findings() if x['id'] == kid]
+                known_lines.append(f'KNOWN-FINDING: property={pid} {kid}: {f[0]["what"] if f else ""} [{len(texts)} witness(es) reproduced, e.g. {texts[0][:200]}]')
 
         # -------------------------------------------------- concrete validation of bodies against the real libraries
         if hasattr(h, 'validate'):
